@@ -1,3 +1,4 @@
+(* roots: C18 C08 C09 *)
 (* C18: the btor2 reader rejects bad input cleanly and only accepts well-typed systems.  Case:
    (case ID (profile debug|release) (origin "..") (muts "..") (text "...") (impl R))
    R = (ok (nodes ..) (sys ..)) | (err) | (panic "file:line" "msg")
